@@ -799,8 +799,9 @@ func checkFECLayout(p *Prog, r *Report) {
 			if f == nil || !isExtFunc(f, "encoding/binary", "littleEndian", "PutUint16") || len(call.Args) != 2 {
 				return true
 			}
-			dst := p.Term(call.Args[0])
-			val := p.FactsOf(fi).AtNode(call).Resolve(p.Term(call.Args[1]))
+			al := aliasMap(p, fi)
+			dst := p.Term(call.Args[0]).Subst(al)
+			val := p.FactsOf(fi).AtNode(call).Resolve(p.Term(call.Args[1])).Subst(al)
 			if dst.Op == "slice" && dst.Args[0].Op == "var" && dst.Args[0].Obj == buf && dst.Args[1] != nil && dst.Args[1].Op == "fld" && dst.Args[1].Obj == p.Field("fecEncoder", "payloadOffset") && dst.Args[2] == nil {
 				for val.Op == "conv" {
 					val = val.Args[0]
